@@ -158,6 +158,12 @@ def cases(tier, seed):
         ops.append("sx.parse %s" % "".join("%02x" % rnd.choice([rnd.randint(1, 255), 0x28, 0x29, 0x20]) for _ in range(rnd.randint(1, 10))))
     for i in range(0, len(ops), 400):
         cs.append(Case("sx-%d" % i, ops[i:i + 400], ("sx",)))
+    # the very first call of a process (run_sharded gives "cold" cases a process each; the harness uses nothing of the
+    # library before the first operation): each kind of text once as the first thing the parser ever sees
+    firsts = ["1", "-7", "#x1f", "(1 2)", "()", "(1 (2 3))", " 12 ", "12)", "(1", "a", "(a 1)", "+", "(", ")", "-", "#", "1a", "(1a)",
+              "\t5", "007", "#xZ", "(#x10 -3)", "a1", "1 a", "(- 1)", "-a"]
+    for i, t in enumerate(firsts):
+        cs.append(Case("first-%d" % i, ["sx.parse %s" % t.encode().hex(), "sx.parse %s" % t.encode().hex()], ("sx", "cold")))
     return cs + deep_cases()
 
 
